@@ -32,3 +32,11 @@ Theorem C20_sharded_length_order : forall fault b pf, exists rest,
   shard_walk fault b pf = snd (length_blk fault b pf) ++ rest /\ (forall m, fst (length_blk fault b pf) = Ok m -> rest = []).
 Proof. exact length_requests_walk_prefix. Qed.
 Print Assumptions C20_sharded_length_order.
+
+(* a path traversal requests the blocks along the path in root-to-target order: the trace is the concatenation, in path
+   order, of each segment's lookup requests followed by the entry's block *)
+From UV Require Import Sel.PathLoads.
+Theorem C20_path_resolution_order : forall fault hash b segs,
+  snd (walk_path fault hash b segs) = walk_spec fault hash b segs.
+Proof. exact walk_path_requests. Qed.
+Print Assumptions C20_path_resolution_order.
